@@ -115,6 +115,10 @@ def inputs(ctx):
         for s in placed_sets:
             ins.append({"id": "pl%d" % n, "chain": ch, "langs": s, "placed": True})
             n += 1
+        # ... and with the two positions on two lines of the caption (a line break between the pieces)
+        ins.append({"id": "pl%d" % n, "chain": ch, "langs": [[(1000000, 2000000, ["upper line", "lower line"]), (3000000, 4000000, ["next"])]],
+                    "placed": "lines"})
+        n += 1
     for k in range(250 if ctx.quick else 12000):
         ln = rng.choice([1, 2, 2, 3, 3, 4, 5, 6])
         if rng.random() < 0.25:
@@ -160,7 +164,10 @@ def execute(inp):
             for cap in lg["caps"]:
                 nodes = []
                 for nd in cap["nodes"]:
-                    if nd[0] == "t" and " " in nd[1] and not nodes:
+                    if inp["placed"] == "lines":
+                        # first line at one position, the following lines at another
+                        nodes.append(["t", nd[1], lay_a if not nodes else lay_b] if nd[0] == "t" else nd)
+                    elif nd[0] == "t" and " " in nd[1] and not nodes:
                         # the first line in two pieces, the cut after a blank
                         cut = nd[1].index(" ", len(nd[1]) // 2 - 1) + 1 if " " in nd[1][len(nd[1]) // 2 - 1:] else nd[1].index(" ") + 1
                         nodes += [["t", nd[1][:cut], lay_a], ["t", nd[1][cut:], lay_b]]
@@ -203,6 +210,8 @@ def signature(inp, rec, clause):
     if "@hop" in clause:
         sig["format"] = clause.split(":")[-1]
     sig["languages"] = len(inp["langs"])
+    if inp.get("placed") == "lines":
+        sig["positions_on_separate_lines"] = True
     return sig
 
 
